@@ -272,7 +272,7 @@ Definition check41 (t : term) : term :=
           (* recorded finding: a collection declared `allocbound=-` is allocated from its length prefix before
              any element is read; the input is too short (model: EShort) but the process dies first *)
           let oom := match out, m with
-                     | OPanic, Err EShort => has_unbounded (length env) s
+                     | OPanic, Err EShort => has_unbounded (List.length env) s
                      | _, _ => false
                      end in
           if oom then v_known "unbounded_allocbound_length_prefix_oom" detail else
